@@ -32,16 +32,19 @@ CLAIMED = {
         technique="Coq proof that priority backtracking yields the extreme affix + differential correspondence (regex text and Match results)",
         design="5 C12"),
     "C11": dict(
-        text=("Model: tokenizer, parser for arith.go.y's productions, the rule-action evaluator (values computed bottom-up, all operands of && || ?: "
+text=("Model: tokenizer, parser for arith.go.y's productions, the rule-action evaluator (values computed bottom-up, all operands of && || ?: "
               "evaluated, lazy variable lookup, nothing evaluated after the first fault), strconv.ParseInt/Itoa and Go int arithmetic; spec: C "
-              "big-step semantics with short-circuit. Proved (all expressions, all stores): evaluation changes the store only at the names under "
-              "= op= ++ -- and never touches Args/Opts (C11_partial_...). The full refinement statement impl = C on C-defined, eager-safe "
-              "expressions is stated in Props/C11.v but NOT yet proved; it is decided on every run by the C oracle on the implementation's "
-              "answers (all depth<=2 trees over the property's operands x variable values, sampled depth 3-4, random spacing/parentheses). "
-              "Known finding F11 (no short-circuit) is reported as KNOWN-FINDING."),
+              "big-step semantics with short-circuit. Proved (all expressions, all stores): C11_refines_C -- on every C-defined expression whose "
+              "skipped operands are inert (the complement of known finding F11) and whose variables hold numbers, assignments, compound "
+              "assignments, ++ and -- included, the evaluator returns C's value and leaves C's store, and fails exactly when C's evaluation "
+              "fails (the delayed reads are unobservable by independence of the operands; every value stays in the int64 range; Itoa then "
+              "ParseInt is the identity on that range: C11_written_values_are_read_back); evaluation changes the store only at the names under "
+              "= op= ++ -- and never touches Args/Opts. Tie on every run: model correspondence and the C oracle on the implementation's answers "
+              "(all depth<=2 trees over the property's operands x variable values, sampled depth 3-4, random spacing/parentheses). Known finding "
+              "F11 (no short-circuit) is reported as KNOWN-FINDING."),
         note=BASE_NOTE + "Modelled, not verified: strconv.ParseInt/Itoa, unicode.IsLetter/IsDigit (table on a declared universe, checked against Go "
              "on every run), goyacc's LALR tables (the model parses the same productions by precedence climbing; agreement is by correspondence).",
-        technique="Coq frame theorem on the rule-action evaluator + differential correspondence + C-semantics oracle extracted from Coq",
+        technique="Coq refinement proof (rule-action evaluator = C semantics on C-defined, eager-safe expressions) + differential correspondence + C-semantics oracle extracted from Coq",
         design="5 C11"),
     "C13": dict(
         text=("Proved (every environment, name other than @/*, word, mode, field context): the operator switch of expandParam performs exactly "
